@@ -30,6 +30,10 @@ NOTES = {
  "C18-m4": "strengthened: id time-to-live configured as none / 0 / unlimited",
  "C19-m3": "strengthened: encryption switched on with an unusable key - the server may refuse to start, but may not serve in clear",
  "C19-m4": "strengthened: after a start attempt under another key, the right key must still restore catalogue and data",
+ "C13-m5": "strengthened: nested permission records (several streams with several topics) over both transports and by update; C11: every journalled command kind decodes back to the same command",
+ "C13-m6": "strengthened (in C11): every kind of journalled command, with optional fields and nested records, must decode and encode back to the same command and code (was caught by C05 only)",
+ "C17-m6": "strengthened: a share of the sends through the HTTP API (was caught by C13 and C01 only)",
+ "C05-m6": "caught by C10 (a token created before a restart must still log in after it)",
  "C10-m4": "strengthened: an administrator changes another user's password, then a restart (journal replay must change that user's, not the issuer's); get_me made observable by granting read_servers",
  "C09-m4": "strengthened: requests after logout on the same connection must be unauthenticated",
  "C12-m2": "strengthened: producers poll from their own cursor right after each send (no-wait window)",
